@@ -89,8 +89,12 @@ func runC03(r *fw.Run) {
 			{"extractVariables", "injectInputFieldDefaults", true, "input field defaults are injected into the extracted variables"},
 		} {
 			ia, ib := stageIdx(c.a), stageIdx(c.b)
-			if ia < 0 || ib < 0 {
-				r.Error("C03-R2: stage rule %s or %s not found in setupOperationWalkers (stages: %v)", c.a, c.b, order)
+			if ib < 0 {
+				r.Note("C03-R2: stage rule %s is not applied in setupOperationWalkers any more; constraint %s<%s is vacuous", c.b, c.a, c.b)
+				continue
+			}
+			if ia < 0 {
+				r.Fail("C03-R2", "setupOperationWalkers/"+c.a+"<"+c.b, fi.Pos(), c.a+" runs on an earlier stage than "+c.b, c.b+" is applied but "+c.a+" is not applied to any walker stage at all: "+c.why)
 				continue
 			}
 			r.Check(ia < ib, "C03-R2", "setupOperationWalkers/"+c.a+"<"+c.b, fi.Pos(), c.a+" runs on an earlier stage than "+c.b,
